@@ -22,6 +22,7 @@ LEVEL_TEXT = ("Theorems (Lean 4, any linearly ordered field) about the Lean text
               "implementation itself (failing-input search).")
 LEVEL_NOTE = ("Proof is over exact field arithmetic for positive dimensions; IEEE rounding and ZeroDivisionError (zero dimensions) "
               "are outside the theorems and covered only by the 1e-12 correspondence run.")
+LEVEL_NOTE = LEVEL_NOTE + (' Argument FORMS beyond Python floats (numpy integer scalars of every width, float64 temperature arrays re-used across calls) are covered by the oracle only; the theorems are about the numbers.')
 MODULE = "SysLoss.Props.C20"
 THEOREMS = ["SysLoss.C20." + t for t in [
     "trace_formula", "plane_formula",
@@ -378,7 +379,50 @@ def stream(ctx, cases, use_lean):
                      % (len(cases), worst, CORR_RTOL))
 
 
+def sweep_case(ctx, im, c):
+    """a temperature SWEEP: `temp` as a float64 numpy array (the formula is elementwise, so the functions evaluate it as they stand).
+    Every element must be what the scalar call gives - on the first call and on every later call with the same array - and the
+    caller's array must come back as it was.  An implementation that takes scalars only (raises on an array) is not faulted."""
+    import numpy
+    fn, given = c["fn"], dict(c["args"])
+    temps = [float(x) for x in c["temps"]]
+    arr = numpy.array(temps, dtype=float)
+    im.forms = None
+    scal = [im.call(fn, **{**given, "temp": t}) for t in temps]
+    if any(isinstance(s, tuple) for s in scal):
+        return
+    ctx.case(key=["sweep", c], nontrivial=True, sample={"call": fn, "args": given, "temps": temps, "stream": "sweep"})
+    ctx.stats["stream:sweep"] += 1
+    for rnd in (1, 2, 3):
+        try:
+            r = getattr(im.mod, fn)(**{**given, "temp": arr})
+            r = [float(x) for x in numpy.asarray(r, dtype=float).ravel()]
+        except Exception as e:       # noqa
+            ctx.stats["sweep:unsupported:%s" % type(e).__name__] += 1
+            return
+        if len(r) != len(temps) or any(rel_off(x, s) > ORACLE_RTOL for x, s in zip(r, scal)):
+            ctx.oracle(dict(c, sweep=True), "formula", fn, {"sweep": True},
+                       {"what": "%s(temp=<float64 array>) call no. %d vs the scalar calls at the same temperatures" % (fn, rnd),
+                        "temps": temps, "array_call": r, "scalar_calls": scal, "array_after_call": [float(x) for x in arr]})
+            return
+        if [float(x) for x in arr] != temps:
+            ctx.oracle(dict(c, sweep=True), "formula", fn, {"sweep": True, "argument_modified": True},
+                       {"what": "the caller's temperature array is modified by the call", "before": temps, "after": [float(x) for x in arr]})
+            return
+
+
+def sweeps(ctx, n):
+    im = Impl()
+    for _ in range(n):
+        c = gen_case(ctx.rng)
+        c.pop("np", None)
+        c["args"].pop("temp", None)
+        c["temps"] = [float("%.4g" % ctx.rng.uniform(-40.0, 150.0)) for _ in range(ctx.rng.randint(2, 5))]
+        sweep_case(ctx, im, c)
+
+
 def run(ctx):
+    sweeps(ctx, ctx.n(25, 400))
     cases = corner_cases() + [gen_case(ctx.rng) for _ in range(ctx.n(500, 50000))]
     stream(ctx, cases, use_lean=True)
 
@@ -386,12 +430,15 @@ def run(ctx):
 def search(ctx):
     """proof / translation / correspondence broke and the oracle saw nothing on the main stream (or the main stream was skipped
     because the build failed): simple tuples first, then a wider stream (dimensions over 1e-6..1e6), oracle only"""
+    sweeps(ctx, ctx.n(25, 400))
     cases = corner_cases() + [gen_case(ctx.rng, span=6.0) for _ in range(ctx.n(4000, 60000))]
     stream(ctx, cases, use_lean=False)
 
 
 def replay(ctx, data):
     c = data["case"]
+    if c.get("sweep"):
+        return sweep_case(ctx, Impl(), {"fn": c["fn"], "args": dict(c["args"]), "k": c.get("k", 2.5), "temps": c["temps"]})
     c = {"fn": c["fn"], "args": dict(c["args"]), "k": c.get("k", 2.5), **({"np": c["np"]} if c.get("np") else {})}
     try:
         stream(ctx, [c], use_lean=True)
